@@ -78,6 +78,8 @@ def build_doc(unions: list[dict]) -> dict:
             elif u.get("mapping_order") == "sorted":
                 order.sort(key=lambda v: DISC[v][1])
             node["discriminator"] = {"propertyName": "kind", "mapping": {DISC[v][1]: f"#/components/schemas/{v}" for v in order}}
+        if u.get("nullable"):
+            node["nullable"] = True     # "one of these, or null": the union schema itself is nullable
         schemas[u["name"]] = node
         schemas["ListOf" + u["name"]] = {"type": "array", "items": R(u["name"])}
         schemas["Holder" + u["name"]] = {"type": "object", "properties": {"val": R(u["name"]), "vals": {"type": "array", "items": R(u["name"])},
@@ -111,6 +113,8 @@ def all_unions(ctx: Ctx) -> list[dict]:
             for mo in ("reversed", "sorted"):   # the mapping may list the variants in another order than oneOf does
                 n += 1
                 us.append({"name": f"Du{n}", "variants": list(t), "kw": "oneOf", "disc": True, "mapping_order": mo})
+            n += 1
+            us.append({"name": f"Du{n}", "variants": list(t), "kw": "oneOf", "disc": True, "nullable": True})
     return us
 
 
